@@ -30,8 +30,7 @@ class C06(Check):
             'arguments substituted, value arguments let-bound), compiled by sourcer, must agree. Non-trivial iff the '
             'reference trace contains a call with a non-literal argument, or two different instantiations of one '
             'template at one position; distinct by (rule text, header, input).')
-    assumptions = ['F11 (inline Python inside a compound argument mentioning call-site names) and F12 (== equal arguments of '
-                   'different type) are excluded by construction; witnesses replayed as known findings']
+    assumptions = ['none beyond the generators\' domain (F11 and F12 were repaired; their witnesses are replayed as regressions)']
     budget_quick = 170
     budget_thorough = 1500
 
